@@ -72,7 +72,8 @@ func (fs TarWriter) CreateSymlink(n NodeSymlink) error {
 
 // We're not using os.Filemode here but the low-level system modes where the mode bits
 // are in the lower half. Can't use os.ModeCharDevice here.
-const modeChar = 0x4000
+// modeChar is set in the file mode of character devices, block devices don't have it
+const modeChar = os.ModeCharDevice
 
 func (fs TarWriter) CreateDevice(n NodeDevice) error {
 	var typ byte = gnutar.TypeBlock
